@@ -18,7 +18,7 @@ import numpy as np
 from vlib import gen
 from vlib.fitcase import Member
 from vlib.models import DENSITIES, FAMILIES, Model
-from vlib.monitor import OpTimeout, Tol, allclose, fmt_exc, time_limit
+from vlib.monitor import FaultyHandle, InjectedFault, OpTimeout, Tol, allclose, fmt_exc, time_limit
 from vlib.ref import constraint_cost, constraint_cov, pd_info, source_cov
 
 PROPERTY = "C11"
@@ -77,6 +77,7 @@ OPS = [
     "add_parameter_constraint",
     "member.add_parameter_constraint",
     "do_fit",
+    "do_fit.failing(injected)",
     "add_error.shared",
     "add_matrix_error.shared",
 ]
@@ -118,7 +119,7 @@ def floors(tier):
             "shared:simple", "shared:matrix", "shared:x", "shared:y", "shared:relative", "shared:absolute",
             "shared:all", "shared:subset", "shared:nonadjacent", "shared:two-sources", "shared:with-nonchi2-member",
             "refuse:size", "refuse:reference", "order:not-subsequence", "order:not-subsequence+shared", "pre-shared:fix", "pre-shared:limit", "pre-shared:release", "pre-shared:unlimit",
-            "limited", "twin:iminuit", "twin:scipy", "iminuit", "scipy", "gls:shared", "gls:unshared",
+            "limited", "failed-do_fit:iminuit", "failed-do_fit:scipy", "failed-do_fit:shared", "twin:iminuit", "twin:scipy", "iminuit", "scipy", "gls:shared", "gls:unshared",
         ],
         "distinct_nontrivial": 40 * k,
     }
@@ -169,6 +170,11 @@ RECIPES = [
     {"nm": 3, "interleaved": True, "pattern": "identical", "types": ["xy", "indexed", "xy"], "minimizer": "iminuit"},
     {"nm": 3, "shared": _sh("matrix", "y", True, "all"), "pre": ["fix", "limit", "release", "unlimit", "fix"], "minimizer": "iminuit"},
     {"nm": 2, "interleaved": True, "linear": True, "minimizer": "iminuit", "pre": ["limit"]},
+    # a minimisation that fails half way (the cost function raises at its k-th evaluation), then the history goes on
+    {"nm": 2, "fail": True, "minimizer": "iminuit", "types": ["xy", "indexed"]},
+    {"nm": 3, "fail": True, "minimizer": "scipy", "shared": _sh("simple", "y", False, "all")},
+    {"nm": 2, "fail": True, "minimizer": "iminuit", "shared": _sh("matrix", "y", False, "all"), "pre": ["fix"]},
+    {"nm": 3, "fail": True, "minimizer": "scipy", "pattern": "partial"},
 ]
 PRE_KINDS = ["fix", "limit", "set", "release", "unlimit"]
 
@@ -191,6 +197,8 @@ def random_recipe(rng, tier):
         rc["pattern"] = str(rng.choice(["none", "nested", "identical", "partial"]))
     if rng.random() < 0.2 and rc.get("pattern") != "none":
         rc["interleaved"] = True
+    if rng.random() < 0.12:
+        rc["fail"] = True
     if rng.random() < (0.35 if rc.get("shared") else 0.1):
         rc["pre"] = [str(v) for v in rng.choice(PRE_KINDS, size=int(rng.integers(1, 5)), p=[0.35, 0.3, 0.15, 0.1, 0.1])]
     return rc
@@ -513,7 +521,7 @@ def build_case(rng, tier, rc):
             vals[nme] = float(v)  # the last member wins (any common value is admissible as a starting point)
     start = {nme: float(np.round(vals[nme] * rng.uniform(0.9, 1.1) + rng.uniform(-0.02, 0.02), 5)) for nme in names}
     pre, history = gen_history(
-        rng, tier, names, vals, info, bool(sh), chi2_member_constraints, minimizer if (len(names) <= 5 or tier != "quick") else "iminuit-no-minos", pre_kinds=() if rc.get("twin") else rc.get("pre", ())
+        rng, tier, names, vals, info, bool(sh), chi2_member_constraints, minimizer if (len(names) <= 5 or tier != "quick") else "iminuit-no-minos", pre_kinds=() if rc.get("twin") else rc.get("pre", ()), fail=bool(rc.get("fail")) and not rc.get("twin")
     )
     src_names = [o[1]["name"] for mb in members for o in mb["setup"] if o[0] in ("add_error", "add_matrix_error")] + [s["op"][1]["name"] for s in shared if s["expect"] == "ok"]
     if src_names and nm >= 2 and rng.random() < 0.12:
@@ -538,7 +546,7 @@ def into_limits(v, lim, v0):
     return float(np.round(v, 6))
 
 
-def gen_history(rng, tier, names, vals, info, shared_mode, chi2_member_constraints, minimizer, pre_kinds=()):
+def gen_history(rng, tier, names, vals, info, shared_mode, chi2_member_constraints, minimizer, pre_kinds=(), fail=False):
     """(ops issued on the multi-fit before its first shared source, ops issued after it)"""
     length = int(rng.integers(3, 9)) if tier == "quick" else int(rng.integers(5, 21))
     maxfit = (1 if minimizer == "scipy" else 2) if tier == "quick" else 4
@@ -634,6 +642,10 @@ def gen_history(rng, tier, names, vals, info, shared_mode, chi2_member_constrain
             nfit += 1
     if nfit == 0:
         ops.append(["do_fit", {"asym": bool(minimizer == "iminuit" and rng.random() < 0.4), "via": "do_fit"}])
+    if fail:
+        # a do_fit whose cost function raises at its k-th evaluation (no fit needs fewer than 7), somewhere before the last fit
+        last = max(i for i, o in enumerate(ops) if o[0] == "do_fit")
+        ops.insert(int(rng.integers(0, last + 1)), ["do_fit", {"asym": False, "via": "do_fit", "fail_at": int(rng.integers(2, 7))}])
     return pre, ops
 
 
@@ -1306,8 +1318,15 @@ def run_case(ctx, case):
                 if not okV or cond > 1e6:
                     ctx.discard("do_fit-skipped-joint-covariance-ill-conditioned")
                     return True
-            ctx.op(k)
             a = op[1]
+            mini = genuine = None
+            if a.get("fail_at"):
+                mini = multi._fitter.minimizer
+                genuine = mini._func_handle
+                mini._func_handle = FaultyHandle(genuine, int(a["fail_at"]))
+                ctx.op("do_fit.failing(injected)")
+            else:
+                ctx.op(k)
             try:
                 with time_limit(90):
                     if a["asym"] and a["via"] == "do_fit":
@@ -1316,6 +1335,19 @@ def run_case(ctx, case):
                         multi.do_fit()
                         if a["asym"]:
                             multi.asymmetric_parameter_errors
+                if mini is not None:
+                    ctx.discard("injected-fault-not-reached")
+            except InjectedFault:
+                # the failure that surfaces is the injected one; every oracle on the state must still hold at the point where the minimiser stopped
+                mini._func_handle, mini = genuine, None
+                ctx.stratum("failed-do_fit:" + mz)
+                if W.shared_mode:
+                    ctx.stratum("failed-do_fit:shared")
+                pv = {n: float(v) for n, v in zip(W.names, multi.parameter_values)}
+                W.values.update(pv)
+                W.minview.update(pv)
+                W.last_op = "do_fit.failing(injected)"
+                return bool(check_all(W, where + " (failed: fault injected at cost evaluation %d)" % a["fail_at"]))
             except OpTimeout:
                 ctx.discard("do_fit-timeout")
                 return False
@@ -1323,8 +1355,11 @@ def run_case(ctx, case):
                 ctx.discard("do_fit-minimizer-linear-algebra-failure")  # numerical Hessian of the backend not invertible: not a statement about multi-fits
                 return False
             except Exception as e:
-                ctx.violation(classify_do_fit_exception(e), "multi.do_fit.no-exception", {"traceback": fmt_exc(), "op_index": i, "original_exception": repr(e.__context__)})
+                ctx.violation(classify_do_fit_exception(e), "multi.do_fit.no-exception", {"traceback": fmt_exc(), "op_index": i, "original_exception": repr(e.__context__), "fault_injected_at_cost_evaluation": a.get("fail_at")})
                 return False
+            finally:
+                if mini is not None:
+                    mini._func_handle = genuine
             st["did_fit"] = True
             if W.fixed:
                 ctx.stratum("fix-then-fit")
